@@ -33,6 +33,7 @@ type c09Obs struct {
 	returned bool
 	src      *chunkSrc
 	src2     *chunkSrc
+	fsrc     *faultSrc
 }
 
 func c09Scenarios(tier string) []*mcrt.Scenario {
@@ -147,6 +148,121 @@ func c09Scenarios(tier string) []*mcrt.Scenario {
 				})
 			}
 		}
+	}
+	// consumers that lag as far as the pipeline lets them, behind 24 messages
+	var tiny []byte
+	for i := 0; i < 24; i++ {
+		tiny = append(tiny, ref.TypedFrame(1000+i, 1+i%3, func(k int) byte { return byte(i) })...)
+	}
+	for _, caps := range [][]int{{0, -1, 0}, {4, 0}} {
+		caps := caps
+		scs = append(scs, &mcrt.Scenario{
+			Name: fmt.Sprintf("lagging-consumers 24-small-frames caps=%v", caps), Bound: 1, Horizon: 400000, Prune: true,
+			Body: func(x *mcrt.X) {
+				obs := &c09Obs{src: &chunkSrc{data: tiny}}
+				x.Data = obs
+				var chans []chan handler.Message
+				for i, c := range caps {
+					if c < 0 {
+						chans = append(chans, nil)
+						continue
+					}
+					ch := make(chan handler.Message, c)
+					chans = append(chans, ch)
+					log := &consumerLog{}
+					obs.logs = append(obs.logs, log)
+					name := fmt.Sprintf("consumer%d", i)
+					mcrt.GoLow(name, func() {
+						for {
+							m, ok := mcrt.Recv2(ch)
+							if !ok {
+								log.closed++
+								return
+							}
+							log.msgs = append(log.msgs, m)
+						}
+					})
+				}
+				own := append([]chan handler.Message{}, chans...)
+				core := appcore.New(&jsonconfig.Config{}, chans)
+				obs.ret = core.HandleMessagesUntilEOF(T0, bufio.NewReader(obs.src))
+				obs.returned = true
+				for _, ch := range own {
+					if ch != nil {
+						mcrt.Close(ch)
+					}
+				}
+			},
+			Check: func(x *mcrt.X) *mcrt.Failure {
+				obs := x.Data.(*c09Obs)
+				if len(x.Panics) > 0 {
+					p := x.Panics[0]
+					return &mcrt.Failure{Kind: "panic in " + p.Thread + ": " + firstLine(p.Value) + " @" + p.Site, Detail: p.Stack}
+				}
+				if !obs.returned || x.End != mcrt.EndAllDone {
+					return &mcrt.Failure{Kind: "call-did-not-return end=" + x.End, Detail: fmt.Sprint(x.Blocked)}
+				}
+				for i, log := range obs.logs {
+					if ok, d := sameAsSequential(log.msgs, tiny); !ok {
+						return &mcrt.Failure{Kind: "consumer-sequence-differs-from-sequential-framing", Detail: fmt.Sprintf("lagging consumer %d: %.300s", i, d)}
+					}
+				}
+				harness.Outcome("lagging consumers ok")
+				return nil
+			},
+		})
+	}
+	// the source pauses (EOF) and resumes, with a non-zero EOF tolerance in the
+	// configuration and consumers that may take 200 ms (virtual) per message:
+	// "however the bytes are chunked in time"
+	f7 := ref.Frame([]byte{0x41})
+	paused := append(append(append([]byte{}, f7...), ref.TypedFrame(1005, 3, nil)...), ref.TypedFrame(1230, 2, nil)...)
+	for _, capN := range []int{0, 1} {
+		capN := capN
+		scs = append(scs, &mcrt.Scenario{
+			Name: fmt.Sprintf("pausing-source tolerance=50ms consumer-cap=%d", capN), Bound: 2, Horizon: 100000, Prune: true,
+			Body: func(x *mcrt.X) {
+				obs := &c09Obs{}
+				x.Data = obs
+				fs := &faultSrc{data: paused}
+				obs.fsrc = fs
+				ch := make(chan handler.Message, capN)
+				log := &consumerLog{}
+				obs.logs = append(obs.logs, log)
+				consumeSlowly("consumer0", ch, log, 200*time.Millisecond)
+				core := appcore.New(&jsonconfig.Config{TimeoutOnEOFMilliSeconds: 50, WaitTimeOnEOFMilliseconds: 10}, []chan handler.Message{ch})
+				obs.ret = core.HandleMessagesUntilEOF(T0, bufio.NewReader(fs))
+				obs.returned = true
+				mcrt.Close(ch)
+			},
+			Check: func(x *mcrt.X) *mcrt.Failure {
+				obs := x.Data.(*c09Obs)
+				if len(x.Panics) > 0 {
+					p := x.Panics[0]
+					return &mcrt.Failure{Kind: "panic in " + p.Thread + ": " + firstLine(p.Value) + " @" + p.Site, Detail: p.Stack}
+				}
+				if !obs.returned || x.End != mcrt.EndAllDone {
+					return &mcrt.Failure{Kind: "call-did-not-return end=" + x.End, Detail: fmt.Sprint(x.Blocked)}
+				}
+				fs := obs.fsrc
+				if fs.supplied < len(paused) {
+					// the reader stopped before the source had handed everything over:
+					// allowed after another error, or when - on the handler's own clock -
+					// the silence had lasted longer than the tolerance
+					if fs.lastErr == errOther {
+						return nil
+					}
+					if silence := fs.lastErrAt.Sub(fs.firstEOF); silence <= 50*time.Millisecond {
+						return &mcrt.Failure{Kind: "reader-gave-up-within-the-EOF-tolerance", Detail: fmt.Sprintf("silence %v, tolerance 50ms, %d of %d bytes read; faults=%v", silence, fs.supplied, len(paused), fs.faults)}
+					}
+				}
+				if ok, d := sameAsSequential(obs.logs[0].msgs, paused[:fs.supplied]); !ok {
+					return &mcrt.Failure{Kind: "consumer-sequence-differs-from-sequential-framing after pauses of the source", Detail: fmt.Sprintf("%.300s faults=%v", d, fs.faults)}
+				}
+				harness.Outcome(fmt.Sprintf("pauses=%d", len(fs.faults)))
+				return nil
+			},
+		})
 	}
 	// inputs around the 4096-byte buffer of bufio.Reader (default schedule; the
 	// source hands over everything that fits per Read)
